@@ -216,7 +216,7 @@ def plan_cr(tier, seed, props):
 
 def plan_api(tier, seed, props):
     q = tier == "quick"
-    n = 3 if q else 6
+    n = 3 if q else 4
     return [item("nestarr_2", NONE, max=n * 2), item("scalarr_4_3", NONE, max=n), item("obj_2", MERGE, max=n * 2), item("deepobj", MERGE, max=n),
             dict(family="mergenull", opts=MERGE, frac=1.0, void=False, nf=False, max=n * 6),
             dict(family="mergedocs", opts=MERGE, frac=1.0, void=False, nf=False, max=n * 3), dict(family="obj_2", opts=MERGE, frac=1.0, void=False, nf=False, max=n),
